@@ -5,6 +5,10 @@ use std::mem;
 use libc::c_int;
 
 pub fn pipe() -> std::result::Result<(RawFd, RawFd), Error> {
+    #[cfg(cicada_verif)]
+    if let Some(r) = crate::verif::pipe_hook() {
+        return r;
+    }
     let mut fds = mem::MaybeUninit::<[c_int; 2]>::uninit();
     let res = unsafe { libc::pipe(fds.as_mut_ptr() as *mut c_int) };
     Error::result(res)?;
